@@ -117,11 +117,34 @@ pub fn probe_lazy_binding(st: &mut Stats) -> CheckResult {
     Ok(())
 }
 
+/// What is left of the lazy-binding finding after its repair below the top level: a program whose
+/// own top-level spine is `\\a -> let x = <may fail> in \\p -> ..` (an exported function that
+/// returns a closure), applied to `a` only.
+pub const KNOWN_LAZY_BINDING_ROOT: &str = "optimiser:binding-made-lazy-under-returned-lambda:at-program-root";
+
+pub const LAZY_BINDING_ROOT_SOURCE: &str = "pub fn entry(a: Int) -> fn(Int) -> Int {\n  let x: Int = 100 / a\n  fn(p: Int) -> Int {\n    x + p\n  }\n}\n";
+
+pub fn probe_lazy_binding_root(st: &mut Stats) -> CheckResult {
+    st.eval();
+    let input = json!({"source": LAZY_BINDING_ROOT_SOURCE, "args": ["I 0"]});
+    let CompileOutcome::Ok(c) = c01::compile_entry(LAZY_BINDING_ROOT_SOURCE, Tracing::All(TraceLevel::Silent)) else {
+        return Err(Failure::new("probe-does-not-compile", json!({"input": input})));
+    };
+    let args = vec![uplc::ast::Data::integer(0.into())];
+    let post = aik::eval_with_args(&c.program, &args).0;
+    let pre = c.pre.as_ref().map(|p| aik::eval_with_args(p, &args).0);
+    if let (Some(Outcome::Error(..)), Outcome::Value(_)) = (&pre, &post) {
+        return Err(Failure::new(KNOWN_LAZY_BINDING_ROOT, json!({"input": input, "pre_optimisation": pre.as_ref().map(show), "post_optimisation": show(&post)})));
+    }
+    Ok(())
+}
+
 pub fn run(cx: &mut Cx) -> String {
     let tier = cx.tier;
     cx.shrink_iters = 0;
     if !cx.is_replay() && cx.worker == 0 {
         cx.direct("known-finding-probe:lazy-binding", &json!({"source": LAZY_BINDING_SOURCE}), probe_lazy_binding);
+        cx.direct("known-finding-probe:lazy-binding-at-program-root", &json!({"source": LAZY_BINDING_ROOT_SOURCE}), probe_lazy_binding_root);
     }
     let cfg = AikCfg::default();
     for (name, tracing, share) in [
